@@ -323,6 +323,7 @@ pub fn c18(tier: Tier, seed: u64) -> i32 {
         let mut accepted: u64 = 0;
         let mut run = |entry: &'static str, f: ParseFn, input: &str, part: &mut Report, per_entry: &mut BTreeMap<String, u64>| {
             watch.begin(w, entry, input);
+            crate::hook::crumb(entry, input);
             let r = crate::hook::quiet_catch(|| f(input));
             watch.end(w);
             part.evaluations += 1;
@@ -433,6 +434,7 @@ struct Content {
     orders: Vec<String>,
     stored: (u64, u64, usize),
     level_repr: String,
+    checksum: String,
 }
 
 fn content_of(name: String, l: &PriceLevel) -> Option<Content> {
@@ -448,6 +450,7 @@ fn content_of(name: String, l: &PriceLevel) -> Option<Content> {
             pkg.snapshot.order_count,
         ),
         level_repr: codec::level_repr(l),
+        checksum: pkg.checksum.clone(),
         json: j,
     })
 }
@@ -504,6 +507,7 @@ struct TamperStats {
 fn judge(c: &Content, m: &str, class: &'static str, proper_prefix: bool, st: &mut TamperStats, rep: &mut Report) {
     st.mutants += 1;
     *st.by_class.entry(class).or_default() += 1;
+    crate::hook::crumb("from_snapshot_json", m);
     let r = crate::hook::quiet_catch(|| PriceLevel::from_snapshot_json(m));
     let level = match r {
         Err(p) => {
@@ -548,7 +552,12 @@ fn judge(c: &Content, m: &str, class: &'static str, proper_prefix: bool, st: &mu
             Err(e) => why = Some(format!("accepted text is not JSON for the harness: {}", e)),
             Ok(v) => {
                 let snap = &v["snapshot"];
-                if v["version"].as_u64() != Some(SUPPORTED_VERSION) {
+                if !v["checksum"].as_str().map(|x| x.eq_ignore_ascii_case(&c.checksum)).unwrap_or(false) {
+                    why = Some(format!(
+                        "a package whose checksum field is {} was accepted although the checksum of its content is {}",
+                        v["checksum"], c.checksum
+                    ));
+                } else if v["version"].as_u64() != Some(SUPPORTED_VERSION) {
                     why = Some(format!("a package with version {} was accepted (supported: {})", v["version"], SUPPORTED_VERSION));
                 } else if snap["price"].as_u64() != Some(c.price) {
                     why = Some(format!("the accepted text carries price {}", snap["price"]));
@@ -712,6 +721,20 @@ fn structural(c: &Content, f: &mut dyn FnMut(String, &'static str)) {
         let mut m = v.clone();
         m["checksum"] = json!(cv);
         f(m.to_string(), "checksum");
+    }
+    // a checksum variant together with a content edit (a validation shortcut keyed on the
+    // checksum field must not let edited content through)
+    {
+        let mut edits = Vec::new();
+        number_edits(&v["snapshot"], &mut vec!["snapshot".to_string()], &mut edits);
+        for (path, new) in edits.into_iter().take(24) {
+            for cv in ["", "0", "deadbeef", "null"] {
+                let mut m = v.clone();
+                set_path(&mut m, &path, new.clone());
+                m["checksum"] = if cv == "null" { Value::Null } else { json!(cv) };
+                f(m.to_string(), "checksum-variant+edit");
+            }
+        }
     }
     // members dropped
     for k in ["version", "snapshot", "checksum"] {
